@@ -17,7 +17,7 @@ def case(draw, tier):
     k = draw(st.sampled_from([1, 1, 1, 2] if gm.DIM[gm.mesh_kind(desc)] < 3 else [1, 1, 1, 1, 2]))
     if gm.DIM[gm.mesh_kind(desc)] == 3 and nc > 3 and k == 2:
         k = 1
-    pre = draw(st.sampled_from(['none', 'none', 'refined', 'translated', 'mirrored', 'restrict', 'oriented']))
+    pre = draw(st.sampled_from(['none', 'none', 'refined', 'translated', 'mirrored', 'restrict', 'oriented', 'matmul_part']))
     return dict(mesh=desc, tags=tg, k=k, pre=pre, times=draw(st.sampled_from(['int', 'int', 'repeat'])))
 
 
@@ -37,6 +37,9 @@ def body(c, ctx):
         m = m.mirrored(normal)
     elif pre == 'restrict' and m.nelements > 2:
         m = m.restrict(np.arange(m.nelements - 1))
+    elif pre == 'matmul_part' and desc['cls'].endswith('1') and m.nelements <= 8:
+        # one part of m @ n: its point array ends with the other part's points, which its own cells do not use
+        m = (m @ m.translated(tuple([float(np.ptp(m.p[0])) + 1.0] + [0.0] * (m.dim() - 1))))[0]
     elif pre == 'oriented' and kind in ('tri', 'tet') and desc['cls'].endswith('1'):
         m = m.oriented()          # cells keep the local order the library chose, no longer ascending
     else:
